@@ -51,17 +51,16 @@ theorem commentsSame_refl (l : List VComment) : commentsSame l l = true := by
   | nil => simp [commentsSame]
   | cons a as ih => simp [commentsSame, ih]
 
-theorem toksSame_refl (l : List VTok) : ∀ prev, toksSame prev l l = true := by
+theorem toksSame_refl (l : List VTok) : ∀ hist, toksSame hist l l = true := by
   induction l with
-  | nil => intro prev; simp [toksSame]
+  | nil => intro hist; simp [toksSame]
   | cons a as ih =>
-    intro prev
+    intro hist
     simp only [toksSame, ih, commentsSame_refl, beq_self_eq_true, Bool.and_true, Bool.true_and]
-    cases prev with
-    | none => rfl
-    | some p =>
-      simp only
-      cases touchRule p a.text <;> cases a.touchesPrev <;> simp
+    rw [Bool.and_eq_true]
+    constructor
+    · cases touchRule hist a.text <;> cases a.touchesPrev <;> rfl
+    · cases hist <;> simp
 
 theorem sameTokens_refl (v : View) : sameTokens v v = true := by
   simp [sameTokens, toksSame_refl, commentsSame_refl]
